@@ -99,12 +99,21 @@ func reverseBody(rt *rapid.T, check, schema string, n *serixgen.Node, encode fun
 	}
 	{
 		ref := serixgen.RefEncode(n, v, true)
+		unvalidated := false
 		if ref.Reject != "" {
-			stats.Case(check, false, "", nil, "skipped:value_not_encodable("+fmt.Sprint(vl["unsatisfiable_rules"])+")")
-			return
+			// the value has no encoding under validation (it breaks a rule, or the shape's rules cannot be met at all);
+			// its encoding WITHOUT validation is still an input the validating decoder has to treat by the reverse claim:
+			// reject it, or accept it and then re-encode it to the same bytes
+			if ref = serixgen.RefEncode(n, v, false); ref.Reject != "" {
+				stats.Case(check, false, "", nil, "skipped:value_not_encodable("+fmt.Sprint(vl["unsatisfiable_rules"])+")")
+				return
+			}
+			unvalidated = true
 		}
 		var mut serixgen.Mutation
 		switch k := rapid.IntRange(0, 11).Draw(rt, "inputKind"); {
+		case unvalidated:
+			mut = serixgen.Mutation{B: ref.B, Label: "encoding_without_validation", HostileOff: -1}
 		case k <= 1:
 			mut = serixgen.Mutation{B: ref.B, Label: "canonical", HostileOff: -1}
 		case k == 2:
